@@ -57,16 +57,16 @@ Theorem C01_divide : forall a b, num_tree a = true -> num_tree b = true -> confo
   nonzero_tree b = true -> m_div a b = s2 sc_div a b.
 Proof. exact div_spec. Qed.
 Print Assumptions C01_divide.
-Theorem C01_min : forall a b, num_tree a = true -> num_tree b = true -> kb_np a b = false -> no_obj a b = true ->
-  m_min a b = s2 sc_min a b.
+Theorem C01_min : forall a b v, conformable a b = true -> kb_vec a b = false -> norm v = v ->
+  num_tree a = true -> num_tree b = true -> s2 sc_min a b = Ok v -> m_min a b = Ok v.
 Proof. exact min_spec. Qed.
 Print Assumptions C01_min.
-Theorem C01_max : forall a b, num_tree a = true -> num_tree b = true -> kb_np a b = false -> no_obj a b = true ->
-  m_max a b = s2 sc_max a b.
+Theorem C01_max : forall a b v, conformable a b = true -> kb_vec a b = false -> norm v = v ->
+  num_tree a = true -> num_tree b = true -> s2 sc_max a b = Ok v -> m_max a b = Ok v.
 Proof. exact max_spec. Qed.
 Print Assumptions C01_max.
-Theorem C01_remainder : forall a b, num_tree a = true -> num_tree b = true -> kb_np a b = false -> no_obj a b = true ->
-  m_rem a b = s2 sc_fmod a b.
+Theorem C01_remainder : forall a b v, conformable a b = true -> kb_vec a b = false -> norm v = v ->
+  num_tree a = true -> num_tree b = true -> s2 sc_fmod a b = Ok v -> m_rem a b = Ok v.
 Proof. exact rem_spec. Qed.
 Print Assumptions C01_remainder.
 Theorem C01_equal : forall a b v, conformable a b = true -> kb_vec a b = false -> norm v = v ->
@@ -124,7 +124,7 @@ Print Assumptions C01_kind_divide_is_real.
 Theorem C01_kind_comparison_is_bit : forall a b r, sc_less a b = Ok r \/ sc_equal a b = Ok r -> r = VI 0 \/ r = VI 1.
 Proof. exact kind_compare_bit. Qed.
 Print Assumptions C01_kind_comparison_is_bit.
-Theorem C01_kind_floor_is_integer : forall a r, sc_floor a = Ok r -> exists z, r = VI z.
+Theorem C01_kind_floor_is_integer : forall a r, floor_fits a = true -> sc_floor a = Ok r -> exists z, r = VI z.
 Proof. exact kind_floor_int. Qed.
 Print Assumptions C01_kind_floor_is_integer.
 
@@ -250,7 +250,7 @@ Theorem C01_size : forall a, canonical a = true -> dom_monad "eval_monad_size" a
   m_monad "eval_monad_size" a = s_monad "eval_monad_size" a.
 Proof. exact size_holds. Qed.
 Print Assumptions C01_size.
-Theorem C01_first : forall a, canonical a = true -> (forall c s, a <> VS (c :: s)) ->
+Theorem C01_first : forall a, canonical a = true ->
   m_monad "eval_monad_first" a = s_monad "eval_monad_first" a.
 Proof. exact first_holds. Qed.
 Print Assumptions C01_first.
@@ -284,38 +284,10 @@ Theorem C01_homogenise_refuted : refutes_m "homogenise" "eval_monad_first" (VL [
 Proof. exact refuted_homogenise. Qed.
 Theorem C01_broadcast_refuted : refutes_d "broadcast" "eval_dyad_add" (VL [VI 1; VI 2]) m22 = true.
 Proof. exact refuted_broadcast. Qed.
-Theorem C01_no_object_loop_refuted : refutes_d "no-object-loop" "eval_dyad_minimum" (VL [VI 1; VL [VI 2; VI 3]]) (VL [VI 1; VL [VI 2; VI 3]]) = true.
-Proof. exact refuted_no_object_loop. Qed.
-Theorem C01_take_matrix_refuted : refutes_d "take-matrix" "eval_dyad_take" (VI 3) m22 = true.
-Proof. exact refuted_take_matrix. Qed.
-Theorem C01_first_of_string_refuted : refutes_m "first-of-string" "eval_monad_first" (VS [97; 98; 99]) = true.
-Proof. exact refuted_first_of_string. Qed.
-Theorem C01_floor_overflow_refuted : refutes_m "floor-overflow" "eval_monad_floor" (VR (real_of_bits 6103021453049119613)) = true.
-Proof. exact refuted_floor_overflow. Qed.
-Theorem C01_reshape_char_0_refuted : refutes_d "reshape-char-0" "eval_dyad_reshape" (VI 0) (VC 97) = true.
-Proof. exact refuted_reshape_char_0. Qed.
 Theorem C01_reshape_nested_refuted : refutes_d "reshape-nested" "eval_dyad_reshape" (VL [VI 2]) (VL [VL [VI 1; VI 2; VI 3]]) = true.
 Proof. exact refuted_reshape_nested. Qed.
-Theorem C01_find_nested_refuted : refutes_d "find-nested" "eval_dyad_find" (VL [VL [VI 1; VI 2]; VL [VI 1; VI 1]]) (VI 1) = true.
-Proof. exact refuted_find_nested. Qed.
-Theorem C01_find_symbol_refuted : refutes_d "find-symbol" "eval_dyad_find" (VL [VY [97]; VY [98]]) (VY [97]) = true.
-Proof. exact refuted_find_symbol. Qed.
 Theorem C01_join_ragged_refuted : refutes_d "join-ragged" "eval_dyad_join" m22 a223 = true.
 Proof. exact refuted_join_ragged. Qed.
-Theorem C01_char_of_empty_refuted : refutes_m "char-of-empty" "eval_monad_char" (VL []) = true.
-Proof. exact refuted_char_of_empty. Qed.
-Theorem C01_expand_empty_refuted : refutes_m "expand-empty" "eval_monad_expand_where" (VL []) = true.
-Proof. exact refuted_expand_empty. Qed.
-Theorem C01_shape_ragged_refuted : refutes_m "shape-ragged" "eval_monad_shape" (VL [VI 1; VL [VI 2]]) = true.
-Proof. exact refuted_shape_ragged. Qed.
-Theorem C01_shape_strlike_member_refuted : refutes_m "shape-strlike-member" "eval_monad_shape" (VL [VC 97; VC 98]) = true.
-Proof. exact refuted_shape_strlike_member. Qed.
-Theorem C01_group_sorted_order_refuted : refutes_m "group-sorted-order" "eval_monad_groupby" (VS [104; 101; 108; 108; 111; 32; 102; 111; 111]) = true.
-Proof. exact refuted_group_sorted_order. Qed.
-Theorem C01_group_non_numeric_refuted : refutes_m "group-non-numeric" "eval_monad_groupby" (VL [VI 1; VS [97]]) = true.
-Proof. exact refuted_group_non_numeric. Qed.
-Theorem C01_range_string_sorted_refuted : refutes_m "range-string-sorted" "eval_monad_range" (VS [104; 101; 108; 108; 111]) = true.
-Proof. exact refuted_range_string_sorted. Qed.
 Theorem C01_match_ints_refuted_without_fix : isclose_gen false (VI 100000) (VI 100001) = true /\ s_same (VI 100000) (VI 100001) = false.
 Proof. exact match_ints_without_fix. Qed.
 
